@@ -162,8 +162,44 @@ def expr_to_gallina(src, node, env):
         if isinstance(n, ast.Compare):
             if len(n.ops) != 1:
                 src.fail(n, 'chained comparison')
-            a, b = go(n.left), go(n.comparators[0])
             op = n.ops[0]
+            rhs = n.comparators[0]
+            # `X is None` / `X is not None`: the environment gives the boolean `X is not None`
+            if isinstance(op, (ast.Is, ast.IsNot)) and isinstance(rhs, ast.Constant) and rhs.value is None:
+                d = dotted_name(n.left)
+                key = f'{d} is not None'
+                if key not in env:
+                    src.fail(n, f'unknown optional {d}')
+                t = env[key]
+                return (t if isinstance(op, ast.IsNot) else f'(negb {t})'), 'bool'
+            # membership in range(a, b) or in a literal tuple/list
+            if isinstance(op, (ast.In, ast.NotIn)):
+                x = go(n.left)
+                if x[1] != 'Z':
+                    src.fail(n, 'membership of a non-integer')
+                if isinstance(rhs, ast.Call) and dotted_name(rhs.func) == 'range' and len(rhs.args) == 2 \
+                        and not rhs.keywords:
+                    lo, hi = go(rhs.args[0]), go(rhs.args[1])
+                    if lo[1] != 'Z' or hi[1] != 'Z':
+                        src.fail(n, 'range bounds are not integers')
+                    t = f'(andb (Z.leb {lo[0]} {x[0]}) (Z.ltb {x[0]} {hi[0]}))'
+                elif isinstance(rhs, (ast.Tuple, ast.List)) and rhs.elts:
+                    parts = []
+                    for e in rhs.elts:
+                        y = go(e)
+                        if y[1] != 'Z':
+                            src.fail(n, 'membership in a non-integer collection')
+                        parts.append(f'(Z.eqb {x[0]} {y[0]})')
+                    t = parts[-1]
+                    for q in reversed(parts[:-1]):
+                        t = f'(orb {q} {t})'
+                else:
+                    src.fail(n, 'membership test outside the subset')
+                return (t if isinstance(op, ast.In) else f'(negb {t})'), 'bool'
+            a, b = go(n.left), go(rhs)
+            if a[1] == 'bool' and b[1] == 'bool' and isinstance(op, (ast.Eq, ast.NotEq)):
+                t = f'(Bool.eqb {a[0]} {b[0]})'
+                return (t if isinstance(op, ast.Eq) else f'(negb {t})'), 'bool'
             if a[1] == 'tuple' or b[1] == 'tuple':
                 if not (a[1] == b[1] == 'tuple') or len(a[0]) != len(b[0]) or not isinstance(op, (ast.Eq, ast.NotEq)):
                     src.fail(n, 'tuple comparison outside the subset')
